@@ -51,26 +51,10 @@ impl KeyV for AnalyzedChangeTarget { type KV = (Seq<char>, AnalyzedChangeTargetR
 // ---------------- C01 vocabulary ----------------
 // the configuration the index was built from: an arbitrary but fixed ghost constant (everything proved holds for every value)
 pub uninterp spec fn the_cfg() -> Seq<Target>;
-pub open spec fn uses_of(t: Target) -> Seq<String> { match t.uses { Some(u) => u@, None => Seq::empty() } }
-pub open spec fn ignores_of(t: Target) -> Seq<String> { match t.ignores { Some(u) => u@, None => Seq::empty() } }
-pub open spec fn has_use(t: Target, u: Seq<char>) -> bool { exists|k: int| 0 <= k < uses_of(t).len() && #[trigger] uses_of(t)[k]@ == u }
-pub open spec fn has_ignore(t: Target, g: Seq<char>) -> bool { exists|k: int| 0 <= k < ignores_of(t).len() && #[trigger] ignores_of(t)[k]@ == g }
+//!include units/index/rep_vocab.rs
 // target i ignores the change c: c lies inside one of its `ignores` paths (whole components)
 pub open spec fn ign(ts: Seq<Target>, i: int, c: Seq<char>) -> bool { exists|k: int| 0 <= k < ignores_of(ts[i]).len() && pp(#[trigger] ignores_of(ts[i])[k]@, c) }
-pub open spec fn is_target(ts: Seq<Target>, p: Seq<char>) -> bool { exists|i: int| 0 <= i < ts.len() && #[trigger] ts[i].path@ == p }
 pub open spec fn ign_name(ts: Seq<Target>, p: Seq<char>, c: Seq<char>) -> bool { exists|i: int| 0 <= i < ts.len() && #[trigger] ts[i].path@ == p && ign(ts, i, c) }
-pub open spec fn views_in(v: Seq<&str>, p: Seq<char>) -> bool { exists|k: int| 0 <= k < v.len() && (#[trigger] v[k])@ == p }
-// the index represents the configuration (established by Index::new; ASSUMED here as a precondition - see DESIGN.md)
-pub open spec fn rep_ok(ix: Index, ts: Seq<Target>) -> bool {
-    &&& forall|l: Seq<char>| #![trigger ix.targets_trie.keys.contains(l)] ix.targets_trie.keys.contains(l) <==> is_target(ts, l)
-    &&& forall|u: Seq<char>| #![trigger ix.uses.keys.contains(u)] ix.uses.keys.contains(u) <==> exists|i: int| 0 <= i < ts.len() && has_use(#[trigger] ts[i], u)
-    &&& forall|g: Seq<char>| #![trigger ix.ignores.keys.contains(g)] ix.ignores.keys.contains(g) <==> exists|i: int| 0 <= i < ts.len() && has_ignore(#[trigger] ts[i], g)
-    &&& forall|u: Seq<char>| #![trigger ix.use2targets@.dom().contains(u)] ix.use2targets@.dom().contains(u) <==> ix.uses.keys.contains(u)
-    &&& forall|g: Seq<char>| #![trigger ix.ignore2targets@.dom().contains(g)] ix.ignore2targets@.dom().contains(g) <==> ix.ignores.keys.contains(g)
-    &&& forall|u: Seq<char>, p: Seq<char>| #![trigger views_in(ix.use2targets@[u]@, p)] ix.use2targets@.dom().contains(u) ==> (views_in(ix.use2targets@[u]@, p) <==> exists|i: int| 0 <= i < ts.len() && #[trigger] ts[i].path@ == p && has_use(ts[i], u))
-    &&& forall|g: Seq<char>, p: Seq<char>| #![trigger views_in(ix.ignore2targets@[g]@, p)] ix.ignore2targets@.dom().contains(g) ==> (views_in(ix.ignore2targets@[g]@, p) <==> exists|i: int| 0 <= i < ts.len() && #[trigger] ts[i].path@ == p && has_ignore(ts[i], g))
-}
-
 pub open spec fn brings(ts: Seq<Target>, g: Seq<char>, p: Seq<char>) -> bool { exists|i: int| 0 <= i < ts.len() && #[trigger] ts[i].path@ == p && has_ignore(ts[i], g) }
 pub open spec fn pending_ign(ts: Seq<Target>, hits: Seq<String>, from: int, p: Seq<char>) -> bool { exists|j: int| from <= j < hits.len() && brings(ts, (#[trigger] hits[j])@, p) }
 pub open spec fn views_upto(v: Seq<&str>, upto: int, p: Seq<char>) -> bool { exists|k: int| 0 <= k < upto && (#[trigger] v[k])@ == p }
